@@ -304,9 +304,15 @@ type printer struct {
 	oldLineEnd           int
 	intToBytesBuffer     [64]byte
 	needsSemicolon       bool
-	wasLazyExport        bool
-	prevOp               js_ast.OpCode
-	moduleType           js_ast.ModuleType
+
+	// True while printing a statement list and nothing but directives has been
+	// printed so far. A string literal expression statement printed in this
+	// position would turn into a directive, so it is wrapped in parentheses.
+	inDirectivePrologue bool
+	nextBlockIsFnBody   bool
+	wasLazyExport       bool
+	prevOp              js_ast.OpCode
+	moduleType          js_ast.ModuleType
 }
 
 func (p *printer) print(text string) {
@@ -906,6 +912,7 @@ func (p *printer) printFnArgs(args []js_ast.Arg, opts fnArgsOpts) {
 func (p *printer) printFn(fn js_ast.Fn) {
 	p.printFnArgs(fn.Args, fnArgsOpts{hasRestArg: fn.HasRestArg})
 	p.printSpace()
+	p.nextBlockIsFnBody = true
 	p.printBlock(fn.Body.Loc, fn.Body.Block)
 }
 
@@ -2761,6 +2768,7 @@ func (p *printer) printExpr(expr js_ast.Expr, level js_ast.L, flags printExprFla
 			}
 		}
 		if !wasPrinted {
+			p.nextBlockIsFnBody = true
 			p.printBlock(e.Body.Loc, e.Body.Block)
 		}
 		if wrap {
@@ -3780,16 +3788,29 @@ func (p *printer) printBody(body js_ast.Stmt, isSingleLine bool) {
 	}
 }
 
+func staysInDirectivePrologue(stmt js_ast.Stmt) bool {
+	switch stmt.Data.(type) {
+	case *js_ast.SDirective, *js_ast.SComment, *js_ast.SEmpty:
+		return true
+	}
+	return false
+}
+
 func (p *printer) printBlock(loc logger.Loc, block js_ast.SBlock) {
 	p.addSourceMapping(loc)
 	p.print("{")
 	p.printNewline()
 
 	p.options.Indent++
+	inPrologue := p.nextBlockIsFnBody // Only function bodies have a directive prologue
+	p.nextBlockIsFnBody = false
 	for _, stmt := range block.Stmts {
 		p.printSemicolonIfNeeded()
+		p.inDirectivePrologue = inPrologue
 		p.printStmt(stmt, canOmitStatement)
+		inPrologue = inPrologue && staysInDirectivePrologue(stmt)
 	}
+	p.inDirectivePrologue = false
 	p.options.Indent--
 	p.needsSemicolon = false
 
@@ -4884,6 +4905,8 @@ func (p *printer) printStmt(stmt js_ast.Stmt, flags printStmtFlags) {
 
 	case *js_ast.SExpr:
 		value := s.Value
+		inDirectivePrologue := p.inDirectivePrologue
+		p.inDirectivePrologue = false
 
 		// Omit calls to empty functions from the output completely
 		if p.options.MinifySyntax {
@@ -4911,7 +4934,15 @@ func (p *printer) printStmt(stmt js_ast.Stmt, flags printStmtFlags) {
 		}
 
 		p.stmtStart = len(p.js)
-		p.printExpr(value, js_ast.LLowest, exprResultIsUnused)
+		if _, ok := value.Data.(*js_ast.EString); ok && inDirectivePrologue && s.IsStringThatIsNotADirective {
+			// This is not a directive and must not be turned into one, which could
+			// happen if the statements that came before it were removed
+			p.print("(")
+			p.printExpr(value, js_ast.LLowest, 0)
+			p.print(")")
+		} else {
+			p.printExpr(value, js_ast.LLowest, exprResultIsUnused)
+		}
 		p.printSemicolonAfterStatement()
 
 	default:
@@ -5016,12 +5047,16 @@ func Print(tree js_ast.AST, symbols ast.SymbolMap, r renamer.Renamer, options Op
 		p.printNewline()
 	}
 
+	inPrologue := true
 	for _, part := range tree.Parts {
 		for _, stmt := range part.Stmts {
+			p.inDirectivePrologue = inPrologue
 			p.printStmt(stmt, canOmitStatement)
 			p.printSemicolonIfNeeded()
+			inPrologue = inPrologue && staysInDirectivePrologue(stmt)
 		}
 	}
+	p.inDirectivePrologue = false
 
 	result := PrintResult{
 		JS:                     p.js,
